@@ -228,7 +228,36 @@ def r1(ctx):
             ctx.ob(fi.qual, "no-allele-inside-reference-skip", ok, fi.loc(loop), "variants inside an N region are skipped without yield" if ok else "a variant inside a reference skip is yielded")
 
 
+def _op_tests(node, opvar):
+    """Sub-expressions that are boolean tests depending only on the operator variable."""
+    out = []
+    for n in ast.walk(node):
+        if isinstance(n, (ast.Compare, ast.BoolOp)):
+            names = {x.id for x in ast.walk(n) if isinstance(x, ast.Name)}
+            if names == {opvar}:
+                par = getattr(n, "parent", None)
+                if isinstance(par, ast.BoolOp) and {x.id for x in ast.walk(par) if isinstance(x, ast.Name)} == {opvar}:
+                    continue  # judged as part of the enclosing operator-only test
+                out.append(n)
+    return out
+
+
+MATCH_CLASS = (0, 7, 8)  # M, =, X consume both sequences and are interchangeable for allele detection
+
+
 def r2(ctx):
+    # operator classes: a test that separates M from = / X treats equivalent alignments differently
+    for name, fi, loop, opv, lenv, refv, qv, extra in walkers(ctx):
+        bad = []
+        n_tests = 0
+        for t in _op_tests(loop, opv):
+            vals = [_eval_op_test(t, opv, k) for k in MATCH_CLASS]
+            if None in vals:
+                continue
+            n_tests += 1
+            if len(set(vals)) != 1:
+                bad.append(t)
+        ctx.ob(fi.qual, "match-operators-treated-alike", not bad and n_tests >= 1, fi.loc(bad[0]) if bad else fi.loc(loop), "every test on the CIGAR operator gives the same answer for M, = and X (%d tests)" % n_tests if not bad else "the test `%s` distinguishes M from =/X: the same alignment written with =/X operators is handled differently" % u(bad[0]))
     for name, fi, loop, opv, lenv, refv, qv, extra in walkers(ctx):
         table = dispatch_table(loop, opv, lenv, refv, qv, extra)
         flags = table[9][2]
@@ -447,6 +476,28 @@ def r6(ctx):
         ctx.ob(fi.qual, "allele-sequence-of-allele-i", ok, fi.loc(), "allele_seq is the sequence of the allele whose progress object is updated" if ok else "allele_seq is %s" % (u(sq) if sq is not None else "?"))
 
 
+def r7(ctx):
+    """Normalisation strips a leading/trailing base only if ALL alleles share it (and none would become shorter than empty)."""
+    for cls in ("BiallelicVcfVariant", "MultiallelicVcfVariant"):
+        fi = ctx.func("whatshap.vcf.%s.normalized" % cls)
+        loops = [n for n in walk_function(fi.node) if isinstance(n, ast.While)]
+        ok_n = len(loops) == 2
+        for i, w in enumerate(loops):
+            conj = w.test.values if isinstance(w.test, ast.BoolOp) and isinstance(w.test.op, ast.And) else [w.test]
+            txt = [u(c) for c in conj]
+            end = "-1" if i == 0 else "0"
+            if cls == "BiallelicVcfVariant":
+                ok = "ref[%s] == alt[%s]" % (end, end) in txt and any("len(ref)" in t for t in txt) and any("len(alt)" in t for t in txt)
+            else:
+                ok = "all((ref[%s] == alt[%s] for alt in alts))" % (end, end) in txt and "ref" in txt and "all(alts)" in txt
+            strip = "[:-1]" if i == 0 else "[1:]"
+            body = " ".join(u(b) for b in w.body)
+            ok = ok and body.count(strip) >= 2
+            if i == 1:
+                ok = ok and any(isinstance(b, ast.AugAssign) and u(b.target) == "pos" and u(b.value) == "1" for b in w.body)
+            ctx.ob(fi.qual, "strip-%s-only-if-shared-by-all" % ("suffix" if i == 0 else "prefix"), ok and ok_n, fi.loc(w), "a %s base is removed only while REF and every ALT share it and none is empty%s" % ("trailing" if i == 0 else "leading", "; the position moves with the prefix" if i == 1 else "") if ok and ok_n else "normalisation loop `while %s` does not require that ALL alleles share the base: an allele can collapse onto REF" % u(w.test))
+
+
 RULES = [
     ("C06.R1", "CIGAR consumption tables of the three walkers vs. SAM", r1),
     ("C06.R2", "unknown operators are rejected", r2),
@@ -454,5 +505,6 @@ RULES = [
     ("C06.R4", "same flanks for all alleles; CIGAR split conservation", r4),
     ("C06.R5", "no guessing: strict best, non-empty candidates, symbolic ALT", r5),
     ("C06.R6", "no-reference handlers index allele and query by the same progress", r6),
+    ("C06.R7", "variant normalisation strips only bases shared by all alleles", r7),
 ]
-FLOORS = {"C06.R1": 28, "C06.R2": 3, "C06.R3": 8, "C06.R4": 13, "C06.R5": 10, "C06.R6": 4}
+FLOORS = {"C06.R1": 28, "C06.R2": 6, "C06.R3": 8, "C06.R4": 13, "C06.R5": 10, "C06.R6": 4, "C06.R7": 4}
